@@ -1,16 +1,11 @@
 /-
-  C10 / C01 at `LocalNetwork` WITHOUT the no-repeat hypothesis on the sparse rows (`RowsOK.Nodup`, the `NoAlias` of
-  `project_equations()`), round 9b — for the full solvers (gso, svd, cholesky).
+  C10 / C01 at `LocalNetwork` for sparse rows that store SEVERAL coefficients with the same column index (an observation
+  from a point to itself), rounds 9b → 12.
 
-  A row that stores several coefficients with the same column index (an observation from a point to itself) is assembled by
-  `project_equations()` with `A(row, col) += a`: the design matrix is the SUMMED one, `Asum := (toProblem (mergeRows np)).A`,
-  `Asum i j = denseA np (i,j)` (`Lemmas/Ls/NoAliasFree.lean`).  `C10_network_solution_uses_full_covariance_aliased`: for ANY
-  `np` (no hypothesis on the rows at all) what `netSolve alg np` answers is the weighted least-squares solution of
-  `(Asum, b)` for `P = m0²·Σ⁻¹`, `Σ` the full block covariance, and minimises `m0²·vᵀΣ⁻¹v`.
-
-  `--algorithm envelope` is NOT covered (`_partial` reason in the docstring): the C++ sums since 6d0f7107 and C10's
-  `Cov.Hom.run` follows (`C10_repeated_columns_agree`), but the LS-side model of the envelope theorems
-  (`Ls.Env.homogenize` → `Problem.dense`) still reads a repeated column as last-write-wins.
+  Round 12 state: `RowsOK` is the range condition only, `Problem.dense` sums, every C++ consumer sums (52e994b, 6d0f7107,
+  a7902736).  `C10_network_solution_uses_full_covariance_aliased` is therefore the main theorem for EVERY algorithm
+  (envelope included) plus "the design matrix is the summed one".  `C10_aliased_rows_are_summed` (the `Net.mergeRows` view of
+  rounds 9b/11: a full solver cannot tell a network from its merged form) is kept.
 -/
 import Gama.Lemmas.Ls.NoAliasFree
 import Gama.Props.C10Net
@@ -39,37 +34,33 @@ theorem C10_aliased_rows_are_summed (np : Net.NetProblem K) (alg : Alg) (halg : 
   ⟨Net.netSolve_mergeRows alg halg np, Net.mergeRows_rowsOK np, Net.denseA_mergeRows np, Net.prepare_mergeRows np,
     Net.mergeRows_A np, fun h => Net.mergeRows_A_of_rowsOK np h⟩
 
-/-- **`C10_network_solution_uses_full_covariance` without `RowsOK` / `NoAlias`** (gso, svd, cholesky): NO hypothesis on the
-    sparse rows of `np`.  `Asum = (toProblem (mergeRows np)).A` is the matrix `project_equations()` accumulates
-    (`Asum i j = denseA np (i,j)` = the sum of the coefficients row `i` stores with column `j+1`); `Σ`, `b`, `min_x_`, `m0`
-    are those of `np` (`mergeRows` changes the rows only).  PARTIAL in the algorithm only: the full statement has
-    `alg` arbitrary; missing for `.env`: `Ls.Env.homogenize` / `Problem.dense` (the model the envelope theorems are
-    about) reads a repeated column as last-write-wins, the code (since 6d0f7107) and C10's `Cov.Hom.run` sum. -/
+/-- **`C10_network_solution_uses_full_covariance` for rows with REPEATED column indices, every algorithm (envelope
+    included)** — round 12.  Since round 11 `RowsOK` is the range condition only and `(toProblem np).A` (`Problem.dense`) adds
+    up the coefficients a row stores with the same column index, exactly as `project_equations()`, class `Adj`,
+    `Homogenization::run` and `Envelope::set` do.  So this is the main theorem itself, plus the statement that its design
+    matrix IS the summed one: `(toProblem np).A i j = denseA np (i,j)`, with no hypothesis (`denseA_eq'`).  (Rounds 9b/11
+    had this for gso/svd/cholesky only, through `Net.mergeRows`; that detour is no longer needed.) -/
 theorem C10_network_solution_uses_full_covariance_aliased (np : Net.NetProblem K)
-    (hdim : (Net.dimsN np).sum = np.m) (hm0 : np.m0 ≠ 0)
-    (Pc : Matrix (Fin (Net.toProblem (Net.mergeRows np)).m) (Fin (Net.toProblem (Net.mergeRows np)).m) K)
-    (hPc : Net.Sigma (Net.mergeRows np) * Pc = 1)
-    (hreg : Env.RegListOK (Net.toProblem (Net.mergeRows np))) {τ : K} (alg : Alg) (halg : alg ≠ .env)
-    (h : InputGap alg (Net.toProblem (Net.mergeRows np)).A ((np.m0 * np.m0) • Pc) (Net.toProblem (Net.mergeRows np)).S τ)
+    (hdim : (Net.dimsN np).sum = np.m) (hrows : RowsOK (Net.toProblem np)) (hm0 : np.m0 ≠ 0)
+    (Pc : Matrix (Fin (Net.toProblem np).m) (Fin (Net.toProblem np).m) K) (hPc : Net.Sigma np * Pc = 1)
+    (hreg : Env.RegListOK (Net.toProblem np)) {τ : K} (alg : Alg)
+    (h : InputGap alg (Net.toProblem np).A ((np.m0 * np.m0) • Pc) (Net.toProblem np).S τ)
     (a : Net.NetAnswer K) (hs : Net.netSolve alg np = .ok a) :
-    -- the matrix is the summed one, the covariance is the one of `np`
-    ((∀ i j, (Net.toProblem (Net.mergeRows np)).A i j = Dn.mget (Net.denseA np) i.val j.val) ∧
-      (∀ s t : Fin (Net.toProblem (Net.mergeRows np)).m, Net.Sigma (Net.mergeRows np) s t = Net.sigmaF np s.val t.val) ∧
-      (Net.Sigma (Net.mergeRows np))ᵀ = Net.Sigma (Net.mergeRows np) ∧ Pcᵀ = Pc) ∧
-    -- the answer of the ORIGINAL network is the least-squares solution of the summed system for P = m0²·Σ⁻¹
-    IsLSSolution (Net.toProblem (Net.mergeRows np)).A (Net.toProblem (Net.mergeRows np)).b ((np.m0 * np.m0) • Pc)
-      (Net.toProblem (Net.mergeRows np)).S
-      (toVec (Net.toProblem (Net.mergeRows np)).n a.x) (toVec (Net.toProblem (Net.mergeRows np)).m a.r) a.pvv ∧
+    -- the matrix is the summed one
+    (∀ (i : Fin (Net.toProblem np).m) (j : Fin (Net.toProblem np).n),
+      (Net.toProblem np).A i j = Dn.mget (Net.denseA np) i.val j.val) ∧
+    -- the answer is the least-squares solution for P = m0²·Σ⁻¹, Σ the full block covariance
+    IsLSSolution (Net.toProblem np).A (Net.toProblem np).b ((np.m0 * np.m0) • Pc) (Net.toProblem np).S
+      (toVec (Net.toProblem np).n a.x) (toVec (Net.toProblem np).m a.r) a.pvv ∧
     -- and minimises m0²·vᵀΣ⁻¹v
-    (∀ x' : Fin (Net.toProblem (Net.mergeRows np)).n → K,
-      a.pvv ≤ ((Net.toProblem (Net.mergeRows np)).A *ᵥ x' - (Net.toProblem (Net.mergeRows np)).b) ⬝ᵥ
-        ((np.m0 * np.m0) • Pc) *ᵥ
-          ((Net.toProblem (Net.mergeRows np)).A *ᵥ x' - (Net.toProblem (Net.mergeRows np)).b)) := by
-  have hs' : Net.netSolve alg (Net.mergeRows np) = .ok a := by rw [Net.netSolve_mergeRows alg halg np]; exact hs
-  have hdim' : (Net.dimsN (Net.mergeRows np)).sum = (Net.mergeRows np).m := hdim
-  obtain ⟨⟨-, hsym, -⟩, ⟨hls, hpc, -⟩, -, -, hmin⟩ :=
-    C10_network_solution_uses_full_covariance (Net.mergeRows np) hdim' (Net.mergeRows_rowsOK np) hm0 Pc hPc hreg alg h a hs'
-  exact ⟨⟨Net.mergeRows_A np, fun s t => rfl, hsym, hpc⟩, hls, hmin⟩
+    (∀ x' : Fin (Net.toProblem np).n → K,
+      a.pvv ≤ ((Net.toProblem np).A *ᵥ x' - (Net.toProblem np).b) ⬝ᵥ
+        ((np.m0 * np.m0) • Pc) *ᵥ ((Net.toProblem np).A *ᵥ x' - (Net.toProblem np).b)) := by
+  obtain ⟨-, ⟨hls, -, -⟩, -, -, hmin⟩ :=
+    C10_network_solution_uses_full_covariance np hdim hrows hm0 Pc hPc hreg alg h a hs
+  refine ⟨fun i j => ?_, hls, hmin⟩
+  rw [← Net.denseA_eq' np]
+  rfl
 
 end general
 
@@ -95,21 +86,15 @@ example :
     simp [Cov.denseRow]
 
 /-- the hypotheses of `C10_network_solution_uses_full_covariance_aliased` are satisfiable and the theorem applies: `Ex.npR`
-    (correlated cluster with an excluded observation, defect 1), cholesky and gso — its merged form has the same
-    design matrix, so the proved `RankGap` carries over -/
-example (alg : Alg) (halg : alg ≠ .svd) (henv : alg ≠ .env) : ∃ a, netSolve alg npR = .ok a ∧
-    ∀ x' : Fin (toProblem (Net.mergeRows npR)).n → ℝ,
-      a.pvv ≤ ((toProblem (Net.mergeRows npR)).A *ᵥ x' - (toProblem (Net.mergeRows npR)).b) ⬝ᵥ
-        ((npR.m0 * npR.m0) • PcN) *ᵥ ((toProblem (Net.mergeRows npR)).A *ᵥ x' - (toProblem (Net.mergeRows npR)).b) := by
+    (correlated cluster with an excluded observation, defect 1), envelope, cholesky and gso -/
+example (alg : Alg) (halg : alg ≠ .svd) : ∃ a, netSolve alg npR = .ok a ∧
+    ∀ x' : Fin (toProblem npR).n → ℝ,
+      a.pvv ≤ ((toProblem npR).A *ᵥ x' - (toProblem npR).b) ⬝ᵥ
+        ((npR.m0 * npR.m0) • PcN) *ᵥ ((toProblem npR).A *ᵥ x' - (toProblem npR).b) := by
   obtain ⟨a, ha, -⟩ := C01.C01_net_answers_witness alg halg
-  have eA : (toProblem (Net.mergeRows npR)).A = (toProblem npR).A := by
-    funext i j
-    exact Net.mergeRows_A_of_rowsOK npR (npW_rows 2 [1]) i j
-  have hg : InputGap alg (toProblem (Net.mergeRows npR)).A ((npR.m0 * npR.m0) • PcN)
-      (toProblem (Net.mergeRows npR)).S (1 / 2 : ℝ) := by
-    rw [eA]; exact C01.C01_net_inputgap_witness alg halg
-  obtain ⟨-, -, hmin⟩ := C10_network_solution_uses_full_covariance_aliased npR (npW_dims 2 [1])
-    (by show (2 : ℝ) ≠ 0; norm_num) PcN npR_sigma_inv (npW_regListOK 2 [1] (Or.inl rfl)) alg henv hg a ha
+  obtain ⟨-, -, hmin⟩ := C10_network_solution_uses_full_covariance_aliased npR (npW_dims 2 [1]) (npW_rows 2 [1])
+    (by show (2 : ℝ) ≠ 0; norm_num) PcN npR_sigma_inv (npW_regListOK 2 [1] (Or.inl rfl)) alg
+    (C01.C01_net_inputgap_witness alg halg) a ha
   exact ⟨a, ha, hmin⟩
 
 end witness
